@@ -43,13 +43,13 @@ Definition mul8 := mul_w 256.
 Definition sub16 := sub_w.
 
 (* checked slicing: &l[a..b] *)
-Definition slice (a b : nat) (l : list Z) : result (list Z) :=
+Definition slice {A} (a b : nat) (l : list A) : result (list A) :=
   if (a <=? b)%nat && (b <=? length l)%nat then Ok (firstn (b - a) (skipn a l)) else Fault OutOfBounds.
 (* &l[a..] *)
-Definition slice_from (a : nat) (l : list Z) : result (list Z) :=
+Definition slice_from {A} (a : nat) (l : list A) : result (list A) :=
   if (a <=? length l)%nat then Ok (skipn a l) else Fault OutOfBounds.
 (* l[i] *)
-Definition index (i : nat) (l : list Z) : result Z :=
+Definition index {A} (i : nat) (l : list A) : result A :=
   match nth_error l i with Some x => Ok x | None => Fault OutOfBounds end.
 
 Definition bytes (l : list Z) : Prop := Forall (fun b => 0 <= b < 256) l.
